@@ -422,6 +422,7 @@ def run(ctx):
     nullable_members_are_ordered_when_only_one_is_null(ctx)
     identity_compares_whole_members(ctx)
     pointer_members_are_compared_by_value_too(ctx)
+    defaults_see_the_arguments_filled_in_so_far(ctx)
     rebuild_rules(ctx, "R06.5")
     changed_flag_rules(ctx, "R06.6")
     ctx.rule("R06.1", "every field a (non-copy) constructor initialises from a parameter is read by the class's structural is_less() and is_equal()")
@@ -1046,3 +1047,38 @@ def pointer_members_are_compared_by_value_too(ctx):
                    "two different non-null values of %s are told apart" % m.split("::")[-1] if free else
                    "%s is compared only where exactly one side is null: two objects that both have one tie" % m.split("::")[-1])
     ctx.floor("R06.18", "pointer members compared in identity functions", n, 20)
+
+
+def defaults_see_the_arguments_filled_in_so_far(ctx):
+    """R06.19: a default template argument may name every earlier parameter - given explicitly or itself defaulted
+    (`template<int N, int M = N*2, int K = M+1>`).  CPPTemplateParameterList::build_subst_decl() fills one substitution map:
+    every substitute_decl() it calls to instantiate a default must be handed THAT map (the one its insert() calls write
+    to), not a copy taken earlier.  (Seed S12-C06: non-type defaults were substituted against a snapshot `given`; `K`
+    printed as `(M + 1)`.)"""
+    db = ctx.db
+    ctx.rule("R06.19", "in build_subst_decl every default is substituted with the map that the filled-in arguments are inserted into")
+    fs = [g for g in db.functions if g.name.endswith("CPPTemplateParameterList::build_subst_decl")]
+    if not fs:
+        ctx.broken("R06.19: CPPTemplateParameterList::build_subst_decl not found")
+        return
+    f = fs[0]
+    sinks = set()
+    for c in f.walk():
+        if c.get("k") == "call" and (c.get("f") or "").endswith("::insert"):
+            t = peel(c.get("this") or {})
+            if t.get("k") == "ref":
+                sinks.add((t.get("n"), t.get("d")))
+    n = 0
+    for c in f.walk():
+        if c.get("k") != "call" or not callee_short(c).startswith("substitute_"):
+            continue
+        a = c.get("a") or []
+        if not a:
+            continue
+        n += 1
+        m = strip_casts(a[0])
+        ok = m is not None and m.get("k") == "ref" and (m.get("n"), m.get("d")) in sinks and m.get("dk") == "param"
+        ctx.ob("R06.19", "build_subst_decl|%s@%s|live-map" % (callee_short(c), f.loc(c).split(":")[-1]), ok, f.loc(c),
+               "substituted with the map being filled" if ok else "substituted with `%s`, which is not the map the arguments are inserted into" % show(a[0]))
+    ctx.floor("R06.19", "substitutions of default template arguments", n, 2)
+    ctx.floor("R06.19", "maps filled by build_subst_decl", len(sinks), 1)
